@@ -10,6 +10,21 @@ type Timer struct {
 	fire    func(h uint64)
 	obj     *Obj
 	what    string
+	owner   int // id of the creating thread (-1: scheduler context)
+}
+
+// Owner returns the id of the thread that created the timer.
+func (tm *Timer) Owner() int { return tm.owner }
+
+// TimersOwnedBy lists all timers (pending or not) created by thread id since the last compaction.
+func (e *Exec) TimersOwnedBy(id int) []*Timer {
+	var out []*Timer
+	for _, tm := range e.alltimers {
+		if tm.owner == id {
+			out = append(out, tm)
+		}
+	}
+	return out
 }
 
 // AddTimer registers a timer d nanoseconds from now on behalf of the running thread.
@@ -18,7 +33,11 @@ func AddTimer(d int64, what string, fire func(h uint64)) *Timer {
 	if d < 0 {
 		d = 0
 	}
-	tm := &Timer{when: e.clock + d, seq: e.tseq, pending: true, fire: fire, what: what}
+	tm := &Timer{when: e.clock + d, seq: e.tseq, pending: true, fire: fire, what: what, owner: -1}
+	if e.cur != nil {
+		tm.owner = e.cur.ID
+	}
+	e.alltimers = append(e.alltimers, tm)
 	e.tseq++
 	tm.obj = &Obj{Ord: e.nextOrd, Name: "timer", epoch: e.epoch}
 	e.nextOrd++
